@@ -37,6 +37,8 @@ func runLocking(c LockCase, id string, check lockChecker, final lockChecker) Out
 				sig := "block-processing-failed"
 				if strings.Contains(err.Error(), "consensus engine rejects") {
 					sig = "consensus-engine-rejects-updates/" + classifyCometError(err.Error())
+				} else if strings.Contains(err.Error(), "re-import of the exported state") {
+					sig = "re-import-failed"
 				} else if strings.Contains(err.Error(), "FinalizeBlock") {
 					sig = "finalize-block-failed/" + classifyFinalizeError(err.Error())
 				}
@@ -63,6 +65,9 @@ func runLocking(c LockCase, id string, check lockChecker, final lockChecker) Out
 			o.Fail = fl
 			return o
 		}
+	}
+	if w.reimports > 0 {
+		o.Classes = append(o.Classes, "reimported")
 	}
 	if final != nil {
 		if fl := final(w, &o); fl != nil {
